@@ -1,4 +1,6 @@
+import Mathlib.Data.Rat.Floor
 import Splipy.Lemmas.C05LinAlg
+import Splipy.Lemmas.C05Knots
 import Splipy.Lemmas.Triangle
 
 /-!
@@ -258,5 +260,25 @@ theorem raiseGuard_ne_false (tol : K) (htol : 0 < tol) (b : Basis K) (rest : Lis
   · rcases continuity_first_knot b tol htol hmono hsz hper with h | ⟨c, h, hc⟩
     · simp [h]
     · simp [h, hc]
+
+/-! ## Concrete instances used by the non-vacuity examples of `Properties/C05.lean` -/
+
+/-- Decidable equality of concrete bases (used only by kernel-evaluated examples). -/
+@[instance_reducible] def c05BasisDecEq : DecidableEq (Basis ℚ) := fun a b =>
+  decidable_of_iff (a.order = b.order ∧ a.knots = b.knots ∧ a.periodic = b.periodic)
+    ⟨fun ⟨h1, h2, h3⟩ => by cases a; cases b; simp_all, fun h => by subst h; exact ⟨rfl, rfl, rfl⟩⟩
+
+/-- Order 2 on `[0,0,1,1]` and its elevation, order 3 on `[0,0,0,1,1,1]`. -/
+def c05B2 : Basis ℚ := openBasis 2 (clampedU 0 1 []) (clampedM 2 [])
+def c05B3 : Basis ℚ := openBasis 3 (clampedU 0 1 []) (clampedM 3 [])
+
+/-- The zero curve with `n` control points (2 components) on basis `b`. -/
+def c05Zero (n : ℕ) (b : Basis ℚ) : Obj ℚ :=
+  { bases := #[b], cps := { shape := [n, 2], data := Array.replicate (n * 2) 0 }, rational := false }
+
+theorem c05Zero_get (n : ℕ) (b : Basis ℚ) (i : ℕ) : (c05Zero n b).cps.get i = 0 := by
+  simp only [c05Zero, Tensor.get]
+  rw [Array.getD_eq_getD_getElem?, Array.getElem?_replicate]
+  split <;> rfl
 
 end Splipy
